@@ -596,12 +596,20 @@ func genIOFaults(r *simrt.Rand, sc *SeqScn) {
 		}
 		sc.Faults = append(sc.Faults, f)
 	}
+	if r.Pct(20) {
+		// a slow backend: one data-path call takes far longer than the (shortened) per-procedure time-outs,
+		// yet less than the request time-out - and does its work. Whatever the server makes of the delay,
+		// nothing may reach the file after the request has been answered.
+		sc.Cfg.OpTimeoutMs = []int{100, 300, 2000}[r.Int(3)]
+		sc.Faults = append(sc.Faults, simfs.Fault{Op: []string{"File.WriteAt", "File.WriteAt", "File.Sync", "OpenFile", "Truncate", "File.ReadAt", "File.Close"}[r.Int(7)], Nth: 1 + r.Int(8),
+			Kind: []string{"stall", "stall_ret"}[r.Int(2)], Stall: time.Duration(2500+r.Int(9000)) * time.Millisecond})
+	}
 }
 
 func init() {
 	Register(&Prop{
 		ID: "C01", Level: "exploration",
-		Rule:    "one case = one sequential history of 10-60 WRITE/READ/SETATTR(size)/CREATE/GETATTR ops on 1-3 files with offsets at 0, EOF-1, EOF, beyond EOF, page boundaries, 2^31, 2^32, near 2^63 and 2^64, counts 0,1,transfer size +-1 and larger, per-run TransferSize, attribute-cache TTL/size, think time (so cached attributes expire or not) and stream segmentation; oracle after every reply: byte-array (write-log) model equality for READ data/count/eof, WRITE count, and backend content == model; 35% of the cases are fault-injecting: 1-3 backend fault rules (EIO/ENOSPC/EACCES from OpenFile, WriteAt, ReadAt, Sync, Close, Truncate, Stat, Chtimes; short WriteAt that stores k < n bytes, with an error or - bending io.WriterAt's contract - without one; short ReadAt) fire inside some request - only that request is judged by the relaxed clause (it may fail, a failed WRITE may leave payload[:k] at its offset and nothing else, a short read returns fewer correct bytes; a reply of NFS3_OK is still held to the exact model), the model is then re-read from the backend and every later operation is again judged exactly. non-trivial = >=1 WRITE crossing EOF or a hole, >=1 truncation and >=3 READs; distinct by event digest",
+		Rule:    "one case = one sequential history of 10-60 WRITE/READ/SETATTR(size)/CREATE/GETATTR ops on 1-3 files with offsets at 0, EOF-1, EOF, beyond EOF, page boundaries, 2^31, 2^32, near 2^63 and 2^64, counts 0,1,transfer size +-1 and larger, per-run TransferSize, attribute-cache TTL/size, think time (so cached attributes expire or not) and stream segmentation; oracle after every reply: byte-array (write-log) model equality for READ data/count/eof, WRITE count, and backend content == model; 35% of the cases are fault-injecting: 1-3 backend fault rules (EIO/ENOSPC/EACCES from OpenFile, WriteAt, ReadAt, Sync, Close, Truncate, Stat, Chtimes; short WriteAt that stores k < n bytes, with an error or - bending io.WriterAt's contract - without one; short ReadAt) fire inside some request - only that request is judged by the relaxed clause (it may fail, a failed WRITE may leave payload[:k] at its offset and nothing else, a short read returns fewer correct bytes; a reply of NFS3_OK is still held to the exact model), the model is then re-read from the backend and every later operation is again judged exactly; a fifth of the fault-injecting cases also shorten every per-procedure time-out to 100 ms-2 s and let one data-path backend call (WriteAt, Sync, OpenFile, Truncate, ReadAt, Close) take 2.5-11.5 s - the call does its work, and nothing may reach the file after the request has been answered. non-trivial = >=1 WRITE crossing EOF or a hole, >=1 truncation and >=3 READs; distinct by event digest",
 		Gen:     genC01,
 		New:     func() any { return &SeqScn{} },
 		Run:     runSeq("C01."),
@@ -901,6 +909,14 @@ func genC03(r *simrt.Rand, tier string) any {
 			}
 			sc.Faults = append(sc.Faults, f)
 		}
+		if r.Pct(25) {
+			// a slow backend instead: one call of some CREATE takes far longer than the (shortened)
+			// per-procedure time-outs, less than the request time-out, and does its work; nothing may happen
+			// to the name after the CREATE has been answered
+			sc.Cfg.OpTimeoutMs = []int{100, 300, 2000}[r.Int(3)]
+			sc.Faults = []simfs.Fault{{Op: []string{"Create", "Create", "OpenFile", "Lstat", "Chmod", "File.Close", "Truncate"}[r.Int(7)], Nth: 1 + r.Int(8),
+				Kind: []string{"stall", "stall_ret"}[r.Int(2)], Stall: time.Duration(2500+r.Int(9000)) * time.Millisecond}}
+		}
 	}
 	return sc
 }
@@ -908,7 +924,7 @@ func genC03(r *simrt.Rand, tier string) any {
 func init() {
 	Register(&Prop{
 		ID: "C03", Level: "exploration",
-		Rule:    "one case = a history of 4-18 CREATE calls (every mode UNCHECKED/GUARDED/EXCLUSIVE, sattr3 subsets incl. size/mode/uid/times, verifiers equal to or different from the creating call's) against names occupied by nothing, a regular file with unique data, a directory, a symlink (dangling or not), interleaved with READ/REMOVE/clock advances; oracle: GUARDED on existing => NFS3ERR_EXIST, EXCLUSIVE on existing => OK only for the creating verifier, existing file bytes identical afterwards unless size was set, backend tree == model; 30% of the cases inject 1-2 backend errors (lstat/stat at the existence check, create, open, truncate, chmod, chown, close; or the remove of a REMOVE between two CREATEs) inside some request: a faulted CREATE may fail with any status but must still not succeed where the mode forbids it nor change the data of an existing file; non-trivial = at least one CREATE; distinct by event digest",
+		Rule:    "one case = a history of 4-18 CREATE calls (every mode UNCHECKED/GUARDED/EXCLUSIVE, sattr3 subsets incl. size/mode/uid/times, verifiers equal to or different from the creating call's) against names occupied by nothing, a regular file with unique data, a directory, a symlink (dangling or not), interleaved with READ/REMOVE/clock advances; oracle: GUARDED on existing => NFS3ERR_EXIST, EXCLUSIVE on existing => OK only for the creating verifier, existing file bytes identical afterwards unless size was set, backend tree == model; 30% of the cases inject 1-2 backend errors (lstat/stat at the existence check, create, open, truncate, chmod, chown, close; or the remove of a REMOVE between two CREATEs) inside some request: a faulted CREATE may fail with any status but must still not succeed where the mode forbids it nor change the data of an existing file; a quarter of these instead shorten every per-procedure time-out to 100 ms-2 s and let one backend call of some CREATE (create, open, lstat, chmod, close, truncate) take 2.5-11.5 s: nothing may happen to the name after the CREATE has been answered; non-trivial = at least one CREATE; distinct by event digest",
 		Gen:     genC03,
 		New:     func() any { return &SeqScn{} },
 		Run:     runSeq("C03."),
